@@ -1692,6 +1692,9 @@ def infer_roles(stmts, seed=None):
             return e.attr
         if isinstance(e, ast.Name):
             return roles.get(e.id)
+        if isinstance(e, ast.Subscript) and isinstance(e.value, ast.Call) and astx.callee_attr(e.value) == 'nonzero' and \
+                isinstance(e.slice, ast.Constant) and e.slice.value in (0, 1):
+            return ('row', 'col')[e.slice.value]
         if isinstance(e, ast.Subscript):
             return role(e.value)
         if isinstance(e, ast.Call) and astx.call_name(e) in ('sorted', 'np.unique', 'list', 'set', 'np.asarray') and e.args:
@@ -2800,9 +2803,18 @@ def subtract(repo, out):
             continue
         cvar = loops_[0].target.id
         eqs, sgn = [], []
+        temps = {}    # temporaries of the block that hold an expression of the colour number (marker = color + 1)
+        for s2 in astx.walk_stmts(blk.body):
+            if isinstance(s2, ast.Assign) and len(s2.targets) == 1 and isinstance(s2.targets[0], ast.Name) and \
+                    astx.mentions(s2.value, cvar) and _signed(s2.value, cvar) is not None:
+                temps.setdefault(s2.targets[0].id, []).append(s2.value)
         for n in walk_body(blk.body):
             if isinstance(n, ast.Compare) and len(n.ops) == 1:
                 l, r = n.left, n.comparators[0]
+                if isinstance(n.ops[0], ast.Eq) and isinstance(l, ast.Name) and l.id in temps and not isinstance(r, ast.Constant):
+                    l, r = r, l
+                if isinstance(r, ast.Name) and r.id in temps and len(temps[r.id]) == 1:
+                    r = temps[r.id][0]
                 if isinstance(n.ops[0], ast.Eq) and astx.mentions(r, cvar) and isinstance(l, ast.Name):
                     eqs.append((n, _signed(r, cvar)))
                 elif isinstance(n.ops[0], (ast.Lt, ast.Gt)) and isinstance(r, ast.Constant) and r.value == 0 and \
@@ -3500,6 +3512,28 @@ def setter_scope(repo, out):
 
 
 # =========================================================================== C03.context
+def _const_loop_keys(cx, node, var):
+    """Constant string keys that loop variable `var` ranges over at `node` (for k in KEYS / for k, v in zip(KEYS, ..))."""
+    for anc in astx.ancestors(node.ast):
+        if not isinstance(anc, ast.For):
+            continue
+        it = None
+        if isinstance(anc.target, ast.Name) and anc.target.id == var:
+            it = anc.iter
+        elif isinstance(anc.target, ast.Tuple) and anc.target.elts and isinstance(anc.target.elts[0], ast.Name) and \
+                anc.target.elts[0].id == var and isinstance(anc.iter, ast.Call) and astx.call_name(anc.iter) == 'zip' and anc.iter.args:
+            it = anc.iter.args[0]
+        if it is None:
+            continue
+        if isinstance(it, ast.Name):
+            v, _ = cx.value(cx.node(anc), it.id)
+            it = v
+        if isinstance(it, (ast.Tuple, ast.List)) and it.elts and all(astx.const_str(e) for e in it.elts):
+            return [astx.const_str(e) for e in it.elts]
+        return []
+    return []
+
+
 @rule('C03.context', floor=4)
 def context(repo, out):
     """_compute_total_coloring_context restores every piece of problem state it sets (randomised subjacs, the
@@ -3525,6 +3559,16 @@ def context(repo, out):
                     rp = cx.rpath(t, n)
                     if rp and '[*]' not in rp and rp.split('.')[0].split('[')[0] in cx.params:
                         res.setdefault(rp, []).append(n)
+                    elif rp and rp.endswith('[*]') and rp.count('[*]') == 1 and isinstance(t, ast.Subscript) and \
+                            isinstance(t.slice, ast.Name) and rp.split('.')[0] in cx.params:
+                        # M[key] inside `for key in KEYS` / `for key, v in zip(KEYS, ...)` with a constant KEYS tuple
+                        # a loop over a non-empty constant tuple always runs its body: passing the loop header counts
+                        lp_ = [a for a in astx.ancestors(n.ast) if isinstance(a, ast.For)]
+                        direct = bool(lp_) and n.ast in lp_[0].body and not any(
+                            isinstance(x, (ast.Break, ast.Continue, ast.Return)) for x in astx.walk_stmts(lp_[0].body))
+                        hdrs = [h for h in (g.nodes_of(lp_[0]) if direct else []) if h in nodes]
+                        for k in _const_loop_keys(cx, n, t.slice.id):
+                            res.setdefault(f'{rp[:-3]}[{k!r}]', []).extend([n] + hdrs)
             elif n.kind == 'stmt' and isinstance(n.ast, ast.Expr) and isinstance(n.ast.value, ast.Call) and \
                     astx.callee_attr(n.ast.value) == 'update' and not n.ast.value.args:
                 # mapping.update(key=value, ...) stores mapping['key']
@@ -3795,6 +3839,12 @@ _LOAD_NEW = ("            if coloring._fwd:\n                coloring._fwd = Col
 _LOAD_HELPER = ("    @staticmethod\n    def _update_old_color_groups(direction_info):\n        old_groups = direction_info[0]\n"
                 "        new_groups = []\n        for c in old_groups[0]:\n            new_groups.append([c])\n"
                 "        new_groups.extend(old_groups[1:])\n        return (new_groups, direction_info[1])\n\n")
+
+_CTXK_SET_OLD = ("    saved_rand_subjacs = problem._metadata['randomize_subjacs']\n    saved_rand_seeds = problem._metadata['randomize_seeds']\n\n"
+                 "    if coloring_info is not None:\n        problem._metadata['randomize_subjacs'] = coloring_info.randomize_subjacs\n"
+                 "        problem._metadata['randomize_seeds'] = coloring_info.randomize_seeds\n")
+_CTXK_SET_NEW = ("    rand_keys = ('randomize_subjacs', 'randomize_seeds')\n    saved_rand = tuple(problem._metadata[key] for key in rand_keys)\n\n"
+                 "    if coloring_info is not None:\n        for key in rand_keys:\n            problem._metadata[key] = getattr(coloring_info, key)\n")
 
 selftest(
     'C03',
@@ -4264,6 +4314,25 @@ selftest(
            also=[(COL, "    @staticmethod\n    def load(fname):\n", _LOAD_HELPER.replace('old_groups[1:]', 'old_groups[0:]') + "    @staticmethod\n    def load(fname):\n")]),
     Mutant('load-helper-wrong-slot', COL, _LOAD_OLD, _LOAD_NEW.replace('groups(coloring._rev)', 'groups(coloring._fwd)'), 'C03.load-mirror',
            also=[(COL, "    @staticmethod\n    def load(fname):\n", _LOAD_HELPER + "    @staticmethod\n    def load(fname):\n")]),
+    # ---- fourth robustness round
+    Twin('context-twin-key-loop', COL, _CTXK_SET_OLD, _CTXK_SET_NEW,
+         also=[(COL, "        problem._metadata['randomize_subjacs'] = saved_rand_subjacs\n        problem._metadata['randomize_seeds'] = saved_rand_seeds\n",
+                "        for key, saved_val in zip(rand_keys, saved_rand):\n            problem._metadata[key] = saved_val\n")]),
+    Mutant('context-key-loop-no-finally', COL, _CTXK_SET_OLD, _CTXK_SET_NEW, 'C03.context',
+           also=[(COL, _CTX_OLD, "    yield\n\n    problem._metadata['coloring_randgen'] = None\n    problem._computing_coloring = False\n"
+                  "    for key, saved_val in zip(rand_keys, saved_rand):\n        problem._metadata[key] = saved_val\n")]),
+    Mutant('context-key-loop-conditional-restore', COL, _CTXK_SET_OLD, _CTXK_SET_NEW, 'C03.context',
+           also=[(COL, "        problem._metadata['randomize_subjacs'] = saved_rand_subjacs\n        problem._metadata['randomize_seeds'] = saved_rand_seeds\n",
+                  "        for key, saved_val in zip(rand_keys, saved_rand):\n            if coloring_info is None:\n                problem._metadata[key] = saved_val\n")]),
+    Twin('sub-twin-marker-temporary', COL, "                        subfrom = spcols[spvals == (color + 1)]\n",
+         "                        fwd_marker = color + 1\n                        subfrom = spcols[spvals == fwd_marker]\n",
+         also=[(COL, "                nzrows, _ = JrVcol.nonzero()  # any nz columns in this row overlap with fwd colors\n",
+                "                nzrows = JrVcol.nonzero()[0]\n")]),
+    Mutant('sub-marker-temporary-off-by-one', COL, "                        subfrom = spcols[spvals == (color + 1)]\n",
+           "                        fwd_marker = color\n                        subfrom = spcols[spvals == fwd_marker]\n", 'C03.subtract'),
+    Mutant('sub-nonzero-index-position-swapped', COL, "                nzrows, _ = JrVcol.nonzero()  # any nz columns in this row overlap with fwd colors\n",
+           "                nzrows = JrVcol.nonzero()[0]\n", 'C03.subtract',
+           also=[(COL, 'tosub.append((nzrow, subc))', 'tosub.append((subc, nzrow))')]),
     Twin('coords-twin-renamed', COL, "    nzrows, nzcols = J.row, J.col\n    col_groups = _get_full_disjoint_cols(J)",
          "    nzrows, nzcols = J.row, J.col\n    col_groups = _get_full_disjoint_col_matrix_cols(_2col_adj_rows_cols(J))"),
 )
